@@ -22,20 +22,20 @@ import (
 type outcome uint32
 
 const (
-	oRejected       outcome = 1 << iota // Unpack returned an error
-	oAccepted                           // Unpack returned nil
-	oPanicUnpack                        // C08
-	oWrongLen                           // C08: accepted although the length rule says reject
-	oOutOfRange                         // C08
-	oPanicString                        // C08
-	oPanicUnit                          // C08
-	oPanicPack                          // C06
-	oPanicReUnpack                      // C06
-	oReRejected                         // C06: Unpack(Pack(v)) returned an error
-	oDrift                              // C06: Unpack(Pack(v)) != v
-	oNotIdentical                       // C06: exact class, Pack(v) != canonical(p)
-	oNoTerminator                       // counted only: 28.001 accepted without NUL in the last octet
-	oEmbeddedNUL                        // counted only: 28.001 value contains NUL
+	oRejected      outcome = 1 << iota // Unpack returned an error
+	oAccepted                          // Unpack returned nil
+	oPanicUnpack                       // C08
+	oWrongLen                          // C08: accepted although the length rule says reject
+	oOutOfRange                        // C08
+	oPanicString                       // C08
+	oPanicUnit                         // C08
+	oPanicPack                         // C06
+	oPanicReUnpack                     // C06
+	oReRejected                        // C06: Unpack(Pack(v)) returned an error
+	oDrift                             // C06: Unpack(Pack(v)) != v
+	oNotIdentical                      // C06: exact class, Pack(v) != canonical(p)
+	oNoTerminator                      // counted only: 28.001 accepted without NUL in the last octet
+	oEmbeddedNUL                       // counted only: 28.001 value contains NUL
 
 	c06Bits = oPanicPack | oPanicReUnpack | oReRejected | oDrift | oNotIdentical
 	c08Bits = oPanicUnpack | oWrongLen | oOutOfRange | oPanicString | oPanicUnit
